@@ -461,6 +461,12 @@ class z_loop:
     def ensures(old, s, a, result):
         yield from _zloop_claims(cur(), old, s, None)
 
+    def ensures_callee(old, s, a, result):
+        # callers (run) learn nothing about an iteration that returned, beyond the "_loop" event: the claims above speak
+        # about the events of the body (polls, sleeps, callbacks), which a call site does not replay -- assuming them
+        # there would be assuming False and silently end every path of run() on which an iteration returns
+        return ()
+
     def on_raise(old, s, a, exc):
         yield from _zloop_claims(cur(), old, s, exc)
 
